@@ -85,6 +85,10 @@ CLAIMS["C19"] = ("daemon", "enumeration of the (id x hash x endpoint) matrix ove
     "In-process calls to the daemon's service methods and real HTTP handler; single-member chains.", "DESIGN.md §3 C19")
 ENGINES_EXTRA.append({"name": "daemon", "path": "inpkg/internal__core", "serves_properties": ["C13", "C14", "C15", "C19"], "kind_free_text": "real DrandDaemon started in-package (overlay) from harness-written key/group/share files, fake clock, loopback listeners"})
 
+CLAIMS["C14"] = ("daemon", "structure-aware fuzzing with rapid: requests generated from the protobuf descriptors against a real daemon over loopback gRPC/HTTP and against real DKG service objects; oracle = bounded answer + liveness probes afterwards",
+    "Requests for every peer-facing RPC are generated by reflection over the message descriptors (absent/zero/typical/hostile per field, every oneof arm) and sent to a real daemon with its interceptors; afterwards probe calls must succeed on every service and the beacon loop must still tick.",
+    "Bounds are real-time (5 s vs. normal milliseconds) and re-examined before they count.", "DESIGN.md §3 C14")
+
 PENDING_REASON = "check not built yet in this session (planned, see DESIGN.md §3); not claimed until it exists and is silent on the unchanged tree"
 
 
